@@ -332,6 +332,8 @@ const DIRECTED: &[(&str, &str, &str)] = &[
     ("free_loop_variable_in_shorthand_body", "attribute sh = v => label = [v, i]\n(identifier) @x { node n for i in [1, 2] { attr (n) sh = i } }", "x\n"),
     ("calls_without_arguments_inside_calls", "(module) { node n attr (n) v = (plus 1 (plus)), w = (concat [1] (concat)), x = (and #true (or)), y = (format \"{}{}\" 1 (plus)) let zero = (plus) attr (n) z = (plus 41 1 zero) }", "pass\n"),
     ("empty_list_rendered", "(module (_)* @stmts) @m { node n attr (n) v = (format \"<{}>\" @stmts), w = (join [[], [1]]) print @stmts attr (@stmts) k = 1 }", ""),
+    ("failing_argument_of_a_variadic_call", "(module) { node n attr (n) v = (plus 1 (plus 4294967295 1)), w = (and #true (not 5)), x = (concat [1] (concat 5)), y = (join [1, 2, 3] (format \"{}\")) }", "pass\n"),
+    ("failing_call_in_print_argument", "(identifier) @id { print (plus @id 1), (no-such-function @id) print @id.never }", "x = y\n"),
     ("four_captures_on_a_plus_quantified_node", "(identifier)+ @a @b @c @d { node n attr (n) la = (length @a), ld = (length @d) for x in @d { print x } }", "x = y\nz\n"),
     ("plus_after_capture_of_optional_pattern", "(assignment left: (_) @lhs right: (_)? @rhs+) { node n attr (n) l = (source-text @lhs) print @rhs }", "with a as b, c as d:\n    match = b\nwhile x: x = x - 1\n"),
     ("plus_on_top_of_star_quantifier", "(identifier)*+ @xs { node n attr (n) x = @xs }", "x = y\n"),
